@@ -43,6 +43,8 @@ def run(project, rep):
     rep.run(T.t_r6b_no_context_arithmetic, project, rep)
     from .. import rules_parser as P
     rep.run(P.x_rules, project, rep)
+    # every round trip starts from a clean reader: the open-tag stack belongs to the instance (the per-instance clause of P-R1)
+    rep.run_only(("P-R1",), P.p_rules, project, rep, constructs=("TreeBuilder:open-tags-per-instance",))
     rep.run(W.l_r1_decimal, project, rep)
     from .. import rules_values as V
     rep.rule("W-R10", "what is read back is what was written: the reader's placement, decode tables and entity decoder (V-R1..V-R7; a decoder that decodes twice turns the written '&amp;amp;' into '&')")
